@@ -153,44 +153,98 @@ Definition is_last (k : cause) (e : err) : bool :=
 Definition ign_cancel (e : err) : err := if is_last KCancel e then [] else e.
 
 Inductive comp := CP | CS | CA | CC.                  (* prompter, spotlights, audition, collector *)
+Definition comp_eqb (a b : comp) : bool :=
+  match a, b with CP, CP | CS, CS | CA, CA | CC, CC => true | _, _ => false end.
+Definition cmem (x : comp) (l : list comp) : bool := existsb (comp_eqb x) l.
+Definition cremove (x : comp) (l : list comp) : list comp := filter (fun y => negb (comp_eqb x y)) l.
 
 (** The four values the components deliver on their error channels. *)
 Record outcome := { o_p : err; o_s : err; o_a : err; o_c : err }.
+Definition comp_err (o : outcome) (x : comp) : err :=
+  match x with CP => o_p o | CS => o_s o | CA => o_a o | CC => o_c o end.
 
-(** Which component delivers first at each stage that is reached: stage 1
-    chooses among all four; if the prompter was first, stage 2 chooses among
-    S A C; if the spotlights were first there, stage 3 chooses among A C. *)
-Inductive sched :=
-| SchP_S_A          (* the normal order: P, S, A, then C *)
-| SchP_S_C
-| SchP_A
-| SchP_C
-| SchS
-| SchA
-| SchC.
+(** ** conduct's four shutdown stages
 
-Definition all_scheds : list sched := [SchP_S_A; SchP_S_C; SchP_A; SchP_C; SchS; SchA; SchC].
+    State of the shutdown.  Every error channel carries one value and is then
+    closed: a second read finds it closed and yields nil. *)
+Record shut := {
+  sh_consumed : list comp;            (* channels that have been read *)
+  sh_reads : list (comp * bool);      (* the reads that found a value, in order; true = through ignCancel *)
+  sh_fin : err;                       (* finalErr *)
+  sh_cancelled : list comp            (* components whose context conduct cancelled BEFORE it had read their result *)
+}.
+Definition shut0 : shut := {| sh_consumed := []; sh_reads := []; sh_fin := []; sh_cancelled := [] |}.
 
-(** finalErr at the end of conduct's four stages.  combineErrors(new,
-    finalErr) puts the new error FIRST; a channel read for the second time is
-    closed and yields nil. *)
-Definition stages (sc : sched) (o : outcome) : err :=
-  let i := ign_cancel in
-  match sc with
-  | SchP_S_A => combine (i (o_c o)) (combine (o_a o) (combine (o_s o) (o_p o)))
-  | SchP_S_C => combine (i (o_a o)) (combine (o_c o) (combine (o_s o) (o_p o)))
-  | SchP_A => combine (i (o_c o)) (combine (i (o_s o)) (combine (o_a o) (o_p o)))
-  | SchP_C => combine (i (o_a o)) (combine (i (o_s o)) (combine (o_c o) (o_p o)))
-  | SchS => combine (i (o_c o)) (combine (i (o_a o)) (combine (i (o_p o)) (o_s o)))
-  | SchA => combine (i (o_c o)) (combine (i (o_s o)) (combine (i (o_p o)) (o_a o)))
-  | SchC => combine (i (o_a o)) (combine (i (o_s o)) (combine (i (o_p o)) (o_c o)))
+(** One read of a component's channel; finalErr = combineErrors(new, finalErr)
+    puts the new error FIRST.  Returns the value read (nil when closed). *)
+Definition do_read (o : outcome) (x : comp) (ig : bool) (s : shut) : shut * err :=
+  if cmem x (sh_consumed s) then (s, [])
+  else let v := comp_err o x in
+       ({| sh_consumed := x :: sh_consumed s;
+           sh_reads := sh_reads s ++ [(x, ig)];
+           sh_fin := combine (if ig then ign_cancel v else v) (sh_fin s);
+           sh_cancelled := sh_cancelled s |}, v).
+
+(** The `if interrupt` block of a stage: for each component of the list in
+    turn, cancel its context, then read its channel through ignCancel. *)
+Definition cancel_and_read (o : outcome) (s : shut) (x : comp) : shut :=
+  let s1 := if cmem x (sh_consumed s) then s
+            else {| sh_consumed := sh_consumed s; sh_reads := sh_reads s; sh_fin := sh_fin s;
+                    sh_cancelled := sh_cancelled s ++ [x] |} in
+  fst (do_read o x true s1).
+Definition interrupt_block (o : outcome) (l : list comp) (s : shut) : shut := fold_left (cancel_and_read o) l s.
+
+(** Which channel a `select` yields is the scheduler's business: an oracle
+    (a list of components, consumed one per select) says it; an entry that is
+    not among the watched channels, or an exhausted oracle, stands for the
+    stage's own channel.  Every behaviour of the selects is the behaviour under
+    some oracle, and the theorems quantify over all of them. *)
+Definition choose (ch : list comp) (own : comp) (watched : list comp) : comp * list comp :=
+  match ch with
+  | [] => (own, [])
+  | c :: ch' => if cmem c watched then (c, ch') else (own, ch')
   end.
+
+(** Stages 1 and 2: wait for the stage's own component while watching the
+    later ones.  [fixed = true] is the code as it is now: a later component
+    that delivers nil (it ended because the stage before it told it to) is no
+    longer watched and the wait goes on.  [fixed = false] is the pinned code:
+    any delivery from a later component interrupted the stage. *)
+Fixpoint stage (fixed : bool) (fuel : nat) (o : outcome) (own : comp) (cancel_list watched : list comp)
+         (ch : list comp) (s : shut) : shut * list comp * list comp :=
+  match fuel with
+  | 0 => (fst (do_read o own false s), watched, ch)
+  | S fuel' =>
+      let '(x, ch') := choose ch own watched in
+      if comp_eqb x own then (fst (do_read o own false s), watched, ch')
+      else let '(s', v) := do_read o x false s in
+           match v, fixed with
+           | [], true => stage fixed fuel' o own cancel_list (cremove x watched) ch' s'
+           | _, _ => (interrupt_block o cancel_list s', watched, ch')
+           end
+  end.
+
+(** Stage 3 (waits for the audition, watches the collector; any delivery from
+    the collector interrupts) and stage 4 (reads the collector through
+    ignCancel). *)
+Definition stage3 (o : outcome) (ch : list comp) (s : shut) : shut * list comp :=
+  let '(x, ch') := choose ch CA [CC] in
+  if comp_eqb x CA then (fst (do_read o CA false s), ch')
+  else (interrupt_block o [CA; CC] (fst (do_read o CC false s)), ch').
+
+Definition conduct_run (fixed : bool) (ch : list comp) (o : outcome) : shut :=
+  let '(s1, w1, ch1) := stage fixed 4 o CP [CP; CS; CA; CC] [CS; CA; CC] ch shut0 in
+  let '(s2, _, ch2) := stage fixed 3 o CS [CS; CA; CC] (cremove CS w1) ch1 s1 in
+  let '(s3, _) := stage3 o ch2 s2 in
+  fst (do_read o CC true s3).
+
+Definition stages (fixed : bool) (ch : list comp) (o : outcome) : err := sh_fin (conduct_run fixed ch o).
 
 (** conduct's return value: the stages, then (deferred, in LIFO order) the
     re-check of the audit verdict unless the error already is an audit
     violation, then the final cleanup's error. *)
-Definition conduct_result (sc : sched) (o : outcome) (verdict cleanup : err) : err :=
-  let e := stages sc o in
+Definition conduct_result (fixed : bool) (ch : list comp) (o : outcome) (verdict cleanup : err) : err :=
+  let e := stages fixed ch o in
   let e := if is_last KAudit e then e else combine e verdict in
   combine e cleanup.
 
